@@ -20,6 +20,9 @@ func effUmask(g *GenSpec) uint32 {
 
 // declares reports whether the parsed file declares what the converter must emit.
 func declares(f *ast.File, c *LConv) bool {
+	if c.Empty {
+		return true // an empty variables block has nothing to declare
+	}
 	want := ""
 	switch {
 	case c.Kind == "variables":
@@ -477,6 +480,13 @@ func CheckC15(c *Ctx) (*Outcome, error) {
 				g.Spec = sp
 			}
 			hs = append(hs, &History{World: w, Loc: rng.IntN(len(locNames)), Ops: []Op{genOp(g)}})
+		}
+		if i%6 == 0 {
+			// the user's environment carries build flags that make the go command hand out
+			// instrumented copies of the sources (GOFLAGS=-cover)
+			g := &GenSpec{Plan: planIdentity(), Spec: spec, Expect: "ok", Env: map[string]string{"GOFLAGS": "-cover"}}
+			hs = append(hs, &History{World: w, Loc: rng.IntN(len(locNames)), Ops: []Op{genOp(g)}})
+			c.Stats.Add("c15.env_goflags_cover", 1)
 		}
 		c.Stats.Add("worlds", 1)
 		return hs, nil
